@@ -376,6 +376,10 @@ void Interpret::interp(ASTNode& n) {
         }
     } catch (ApiException const &e) {
         notify_formatted(true, e.what());
+    } catch (std::exception const & e) {
+        // e.g. LANonLinearException, or std::logic_error for models of unsupported theories:
+        // the command is rejected, the interpreter must not be terminated
+        notify_formatted(true, e.what());
     }
 }
 
